@@ -533,7 +533,7 @@ impl TypeChecker {
                 name: param.node.name.clone(),
                 kind: SymbolKind::Variable(VariableInfo {
                     ty,
-                    is_mutable: false,
+                    is_mutable: param.node.is_mut,
                     is_used: false,
                 }),
                 span: param.span,
@@ -590,7 +590,7 @@ impl TypeChecker {
                 name: param.node.name.clone(),
                 kind: SymbolKind::Variable(VariableInfo {
                     ty,
-                    is_mutable: false,
+                    is_mutable: param.node.is_mut,
                     is_used: false,
                 }),
                 span: param.span,
